@@ -102,6 +102,9 @@ pub struct Obs {
     pub header_ty: Result<Ty, String>,
     /// files of 3 records: the iterator driven through std adaptors (reader state 0 fresh / 1 after one next(), program, answers)
     pub progs: Vec<(u8, Prog, iterprog::Out<Result<MRead, String>>)>,
+    /// small files: the stream stored behind a prefix of 37 bytes resp. of more bytes than the stream has, the source
+    /// handed over positioned at the first byte of the stream (a member of an uncompressed container)
+    pub embedded: Vec<(usize, Result<Vec<MRead>, String>)>,
 }
 
 pub fn observe(case: &Case, bytes: &[u8]) -> Obs {
@@ -160,7 +163,31 @@ pub fn observe_chunked(case: &Case, bytes: &[u8], chunk: usize) -> Obs {
             }
         }
     }
-    Obs { read, iter, typed, header_ty, progs }
+    let mut embedded = vec![];
+    if bytes.len() < 20_000 {
+        for prefix in [37usize, bytes.len() + 11] {
+            let mut b = vec![0x5Au8; prefix];
+            b.extend_from_slice(bytes);
+            let mut d = dev(b);
+            let res = std::io::Seek::seek(&mut d, std::io::SeekFrom::Start(prefix as u64)).map_err(|e| e.to_string()).and_then(|_| {
+                ShapeReader::new(d).map_err(|e| err_kind(&e)).and_then(|mut r| {
+                    let mut v = vec![];
+                    for it in r.iter_shapes() {
+                        if v.len() > n + 4 {
+                            return Err("iteration does not end".into());
+                        }
+                        match it {
+                            Ok(s) => v.push(from_lib(&s)),
+                            Err(e) => return Err(format!("item {}: {}", v.len(), err_kind(&e))),
+                        }
+                    }
+                    Ok(v)
+                })
+            });
+            embedded.push((prefix, res));
+        }
+    }
+    Obs { read, iter, typed, header_ty, progs, embedded }
 }
 
 /// What the statement demands for one record.
@@ -272,6 +299,9 @@ pub fn judge(case: &Case, o: &Obs) -> Vec<(String, String)> {
     let mut routes: Vec<(&str, &Result<Vec<MRead>, String>)> = vec![("read", &o.read), ("iter_shapes", &o.iter)];
     if let Some(t) = &o.typed {
         routes.push(("read_as", t));
+    }
+    for (prefix, r) in &o.embedded {
+        routes.push((if *prefix == 37 { "iter_shapes(stream behind a prefix of 37 bytes)" } else { "iter_shapes(stream behind a prefix longer than itself)" }, r));
     }
     for (name, r) in routes {
         match r {
@@ -647,7 +677,7 @@ fn enumerate(u: &Unit, tier: Tier, ctx: &mut Ctx, tick: &dyn Fn()) {
                         emit(multi(&lens), with_m, 0, ctx);
                     }
                 }
-                for np in [16384usize, 20000] {
+                for np in [16384usize, 20000, 32767, 32768, 40000, 65536] {
                     emit(multi(&vec![2; np]), true, 0, ctx);
                 }
             }
@@ -855,7 +885,7 @@ pub fn check(tier: Tier) -> i32 {
             tier,
             level: "model_checking",
             engine: "E2 enumerator over files produced by the independent RefCodec encoder, decoded by the real ShapeReader (read, iter_shapes, read_as)",
-            rule: "14 file types x {n=0; n=1 over every record variant (part structures with 0-3 parts of 0-3 vertices incl. empty first parts and zero parts, M block present/absent, PointZ 24/32 bytes, 4 stored-box variants, null record) x 5 numbering variants x 4 trailing variants; n=2,3 all ordered tuples over 6 representative variants x numbering x trailing; deviation sets of size <= d over every coordinate and stored-box field from the full float alphabet (NaNs included); EVERY part length from 2 to the size bound for one type per family (with and without the M block); every file of >= 2 records again through sources returning at most 1 resp. 5 bytes per read, and (files of 3 records) with the iterator driven through 14 programs of std adaptors (nth, skip, step_by, last, count) fresh and after one next(); a special measure / Z at the start, middle, end of a part of 300..20000 points, two long parts of every ordered pair over {260, 300, 1030, 16390} with and without the M block, long records with and without the M block followed by another record, three long parts of more than 2^16 points, an empty part inside such a record, 16384 / 20000 parts; records of more than 10 MiB (a part of 700001 points; thorough also 1400001 and three more types) alone, last of two, and followed by a null record}; distinct = hash of the file bytes; non-trivial = foreign layout feature, deviation or >= 2 records",
+            rule: "14 file types x {n=0; n=1 over every record variant (part structures with 0-3 parts of 0-3 vertices incl. empty first parts and zero parts, M block present/absent, PointZ 24/32 bytes, 4 stored-box variants, null record) x 5 numbering variants x 4 trailing variants; n=2,3 all ordered tuples over 6 representative variants x numbering x trailing; deviation sets of size <= d over every coordinate and stored-box field from the full float alphabet (NaNs included); EVERY part length from 2 to the size bound for one type per family (with and without the M block); every file of >= 2 records again through sources returning at most 1 resp. 5 bytes per read, and (files of 3 records) with the iterator driven through 14 programs of std adaptors (nth, skip, step_by, last, count) fresh and after one next(); a special measure / Z at the start, middle, end of a part of 300..20000 points, two long parts of every ordered pair over {260, 300, 1030, 16390} with and without the M block, long records with and without the M block followed by another record, three long parts of more than 2^16 points, an empty part inside such a record, 16384 / 20000 / 32767 / 32768 / 40000 / 65536 parts; small files again as a stream stored behind a prefix (shorter resp. longer than the stream), the source handed over positioned at its first byte; records of more than 10 MiB (a part of 700001 points; thorough also 1400001 and three more types) alone, last of two, and followed by a null record}; distinct = hash of the file bytes; non-trivial = foreign layout feature, deviation or >= 2 records",
             bounds: json!({"max_parts": 3, "max_part_len": 3, "max_records": 4, "deviation_bound": tier.pick(1, 2), "alphabet": f_m().len()}),
             exhaustive: true,
             assumptions: vec!["ring roles and the M range of a box whose M block is absent are not in the statement and are not compared".into()],
